@@ -193,6 +193,14 @@ def run_case(ctx, kind_, idx):
                     kw["target_function_integral_method"] = bogus(rng, ("trapezoid", "rectangle"))
                 elif c == "rule_function_reference":
                     kw["reference_function_integral_method"] = bogus(rng, ("trapezoid", "rectangle"))
+                if c in ("rule_function_target", "rule_function_reference") and rng.integers(0, 3) == 0:
+                    # a degenerate but accepted designation (fixed points delimiting no interval) is still a valid
+                    # surrounding: the unknown name must be refused all the same
+                    j = int(rng.integers(0, len(xs)))
+                    if rng.integers(0, 2):
+                        kw["fixed_points_in_x"] = [float(xs[j])]
+                    else:
+                        kw["fixed_points_indices_in_x"] = [j]
                 elif c == "strategy_matching_function":
                     kw["fixed_points_finding_strategy"] = bogus(rng, ("closest", "lower", "higher"))
                 elif c == "fixed_values_not_samples":
@@ -251,7 +259,11 @@ def run_case(ctx, kind_, idx):
                 elif c == "rule_weaver_target":
                     b = bogus(rng, ("trapezoid", "rectangle"))
                     info["rule"] = b
-                    call = lambda: wv.integral_match(target_function_integral_method=b)
+                    if rng.integers(0, 3) == 0:
+                        x0_ = float(wx[0])
+                        call = lambda: wv.integral_match(target_function_integral_method=b, fixed_points_in_x=[x0_])
+                    else:
+                        call = lambda: wv.integral_match(target_function_integral_method=b)
                 elif c == "rule_weaver_reference":
                     b = bogus(rng, ("trapezoid", "rectangle"))
                     info["rule"] = b
